@@ -28,17 +28,11 @@ Proof. intros H. unfold gett, sett, set_tss. cbn. apply nth_upd_same. exact H. Q
 Definition same_clock (w w' : world O) : Prop :=
   tk w' = tk w /\ stamp w' = stamp w /\ crash_at w' = crash_at w /\ length (tss w') = length (tss w).
 
-Lemma same_clock_ops n : ops_R O same_clock (lvl P n).
+Lemma same_clock_ops n : ops_R O (fun _ => same_clock) (lvl P n).
 Proof.
-  apply lvl_R; unfold same_clock.
-  - intros; auto.
-  - intros a b c [? [? [? ?]]] [? [? [? ?]]]. repeat split; congruence.
-  - intros; cbn; auto.
-  - intros; cbn; repeat split; auto. apply upd_length.
-  - intros; cbn; auto.
-  - intros; cbn; auto.
-  - intros; cbn; auto.
-  - intros; cbn; auto.
+  apply lvl_R; unfold same_clock, modt; intros; cbn; repeat split; auto; try apply upd_length.
+  all: try (destruct H as [? [? [? ?]]], H0 as [? [? [? ?]]]; congruence).
+  all: try (destruct H0 as [? [? [? ?]]]; assumption).
 Qed.
 
 Lemma send_same_clock n t c w w' r :
@@ -54,17 +48,62 @@ Proof. intros H. apply send_same_clock in H. apply H. Qed.
 (* the trace only grows: the old trace is a suffix of the new one *)
 Definition trace_ext (w w' : world O) : Prop := exists l, trace w' = l ++ trace w.
 
-Lemma trace_ext_ops n : ops_R O trace_ext (lvl P n).
+Lemma trace_ext_ops n : ops_R O (fun _ => trace_ext) (lvl P n).
 Proof.
-  apply lvl_R; unfold trace_ext; intros; cbn.
-  - exists []. reflexivity.
+  apply lvl_R; unfold trace_ext, modt; intros; cbn; try (exists []; reflexivity).
   - destruct H as [l1 H1], H0 as [l2 H2]. exists (l2 ++ l1). rewrite H2, H1, app_assoc. reflexivity.
   - exists [e]. reflexivity.
-  - exists []. reflexivity.
-  - exists []. reflexivity.
-  - exists []. reflexivity.
-  - exists []. reflexivity.
-  - exists []. reflexivity.
+  - exact H0.
+Qed.
+
+(* ---- footprint: an operation of framer [a] changes, besides desires and periods, only the
+   tasker states of [a] and of the framers reachable from it through the child relation
+   (plain and conditional auxiliaries, fiat targets) and its declared done-targets ---- *)
+Definition core (s : tstate O) :=
+  (st s, done s, alive s, fstamp s, elapsed s, recurred s, active s, actives s, main s).
+
+Inductive reach : tid -> tid -> Prop :=
+| reach_refl : forall a, reach a a
+| reach_child : forall a b x, child O P a b -> reach b x -> reach a x
+| reach_done : forall a x, dtarget O P a x -> reach a x.
+
+Definition footprint (a : tid) (w w' : world O) : Prop :=
+  forall x, ~ reach a x -> core (gett w' x) = core (gett w x).
+
+Lemma gett_modt_other (w : world O) t u f : t <> u -> gett (modt w t f) u = gett w u.
+Proof. intros. unfold modt. apply gett_sett_other. assumption. Qed.
+
+Lemma core_modt_or (w : world O) x t f :
+  (t = x -> False) \/ core (f (gett w t)) = core (gett w t) ->
+  core (gett (modt w t f) x) = core (gett w x).
+Proof.
+  intros [H|H].
+  - rewrite gett_modt_other; auto.
+  - destruct (Nat.eq_dec t x) as [->|Hne]; [|rewrite gett_modt_other; auto].
+    unfold modt, sett, gett, set_tss. cbn.
+    destruct (Nat.lt_ge_cases x (length (tss w))) as [Hl|Hl].
+    + rewrite nth_upd_same by assumption. exact H.
+    + rewrite !nth_overflow; auto. rewrite upd_length. assumption.
+Qed.
+
+Lemma footprint_ops n : ops_R O footprint (lvl P n).
+Proof.
+  apply lvl_R; unfold footprint.
+  - reflexivity.
+  - intros a w1 w2 w3 H H0 x Hx. rewrite H0, H; auto.
+  - reflexivity.
+  - reflexivity.
+  - reflexivity.
+  - reflexivity.
+  - reflexivity.
+  - (* self *) intros a w s x H. destruct (Nat.eq_dec a x) as [->|Hne]; [exfalso; apply H; apply reach_refl|].
+    rewrite gett_sett_other; auto.
+  - intros. apply core_modt_or. right. reflexivity.
+  - intros. apply core_modt_or. right. reflexivity.
+  - intros a w x H x0 H0. apply core_modt_or. left. intros ->. apply H0. apply reach_done. exact H.
+  - intros a w x m H x0 H0. apply core_modt_or. left. intros ->. apply H0.
+    eapply reach_child; [exact H|apply reach_refl].
+  - intros a x w w' H H0 x0 H1. apply H0. intros Hr. apply H1. eapply reach_child; eauto.
 Qed.
 
 End B.
